@@ -191,7 +191,7 @@ func genCS(r *lib.Rand, h *History, i int) {
 		h.Steps = []Step{{"create_pool", []string{"0", amt(100000, 1000000000000), amt(100000, 1000000000000)}},
 			{"add_uni", []string{amt(1, 10000000000)}}, {"sell", []string{amt(1, 100000000)}}, {"buy", []string{amt(1, 90000)}},
 			{"remove_uni", []string{amt(1, 90000)}}, {"create_pool", []string{"1", amt(1000, 1000000), amt(1000, 1000000)}},
-			{"sell", []string{r.Big(36).Add(r.Big(36), big.NewInt(1)).String()}}}
+			{"sell", []string{r.Big(36).Add(r.Big(36), big.NewInt(1)).String()}}, {"remove_liq", []string{amt(1, 90000)}}}
 		return
 	}
 	// vary one field mostly, sometimes several
